@@ -1194,41 +1194,68 @@ def truc_rule_offsets(ctx, crate):
 # -- C13: sentinel offsets ---------------------------------------------------
 
 def truc_rule_sentinel(ctx, crate):
-    """S-SENTINEL: code that walks the raw datum collection must not read offsets."""
+    """S-SENTINEL / S-RAW: code that walks the raw datum collection (which also holds data that were added and
+    removed again before their variant was closed: offset = usize::MAX, type possibly unnameable) must not do
+    arithmetic on offsets, and the generator must not take names / sizes from it — unless it tells the
+    never-placed data apart first (a comparison of the offset with the placeholder)."""
     RAW = {DDC + 'iter', T + 'RecordDefinition::<D>::datum_definitions'}
     OFFSET = NDD + '::offset'
     n = 0
+
+    def offset_locals(x):
+        out = set()
+        for bb, t in x.calls():
+            if callee_path(t) == OFFSET and not t['dest']['p']:
+                out.add(t['dest']['l'])
+        for _, _, st in x.statements():
+            if st['k'] == 'assign' and st['rv']['k'] == 'use' and op_place(st['rv']['op']) and not st['place']['p'] and \
+                    any(isinstance(e, dict) and e.get('adt') == NDD and e.get('name') == 'offset' for e in op_place(st['rv']['op'])['p']):
+                out.add(st['place']['l'])
+        # copies
+        for _ in range(3):
+            for _, _, st in x.statements():
+                if st['k'] == 'assign' and st['rv']['k'] == 'use' and not st['place']['p'] and op_local(st['rv']['op']) in out:
+                    out.add(st['place']['l'])
+        return out
+
+    def uses(x, offs):
+        arith, guarded = [], False
+        for _, _, st in x.statements():
+            if st['k'] != 'assign' or st['rv']['k'] != 'bin':
+                continue
+            rv = st['rv']
+            sides = [op_local(rv['l']), op_local(rv['r'])]
+            if not any(s in offs for s in sides if s is not None):
+                continue
+            if rv['op'] in ('Eq', 'Ne'):
+                other = rv['r'] if op_local(rv['l']) in offs else rv['l']
+                if op_int(other) == USIZE_MAX:
+                    guarded = True
+            elif rv['op'].startswith(('Add', 'Sub', 'Mul')):
+                arith.append(st)
+        return arith, guarded
+
     for b in crate.bodies:
         if b.def_kind == 'Closure' or b.promoted is not None:
             continue
         group = [b] + crate.closures_of(b.path)
         raw = [(x, t) for x in group for bb, t in x.calls() if callee_path(t) in RAW]
-        if not raw:
-            continue
-        if b.path in RAW:
+        if not raw or b.path in RAW:
             continue
         n += 1
-        offs = [(x, t) for x in group for bb, t in x.calls() if callee_path(t) == OFFSET]
-        direct = [(x, st) for x in group for _, _, st in x.statements() if st['k'] == 'assign' and st['rv']['k'] == 'use' and op_place(st['rv']['op']) and
-                  any(isinstance(e, dict) and e.get('adt') == NDD and e.get('name') == 'offset' for e in op_place(st['rv']['op'])['p'])]
-        ctx.inst('S-SENTINEL', '%s walks the raw datum collection; offset reads: %d' % (b.path, len(offs) + len(direct)))
-        if offs or direct:
-            where = fmt_span((offs[0][1]['span'] if offs else direct[0][1].get('span')))
-            ctx.add(['C13'], 'S-SENTINEL', b.key, 'walks every datum definition (including data that were added and removed before their variant was closed, whose offset is the placeholder usize::MAX) and reads offsets at %s: arithmetic on the placeholder overflows' % where, key='%s|offset' % b.path)
-    # S-RAW: the generator goes through the variants, never through the raw collection (a withdrawn
-    # datum is a field of no variant: its type need not even be nameable where the module is compiled)
-    if not any(p in crate.fns for p in RAW):
-        ctx.add(['C13'], 'S-RAW', None, 'neither DatumDefinitionCollection::iter nor RecordDefinition::datum_definitions exists any more (anchor lost: fail closed)', key='anchor')
-    ngen = 0
-    for b in crate.bodies:
-        if not (b.module or '').startswith('truc::generator'):
-            continue
-        ngen += 1
-        for bb, t in b.calls():
-            if callee_path(t) in RAW:
-                ctx.add(['C13', 'C11'], 'S-RAW', b.key, 'the generator walks every datum definition at %s, including data withdrawn before their variant was closed: their type names / sizes end up in the generated module although they are fields of no variant' % fmt_span(t['span']), key='%s|raw' % b.path)
-    ctx.inst('S-RAW', 'no raw datum-collection walk in %d bodies of truc::generator' % ngen)
-    ctx.inst('S-SENTINEL', 'bodies walking the raw datum collection examined: %d (anchor: the raw accessors exist)' % n)
+        arith, guarded = [], False
+        for x in group:
+            a_, g_ = uses(x, offset_locals(x))
+            arith += a_
+            guarded = guarded or g_
+        ctx.inst('S-SENTINEL', '%s walks the raw datum collection; arithmetic on offsets: %d, placeholder test: %s' % (b.path, len(arith), guarded))
+        if arith and not guarded:
+            ctx.add(['C13'], 'S-SENTINEL', b.key, 'walks every datum definition (including data that were added and removed before their variant was closed, whose offset is the placeholder usize::MAX) and does arithmetic on offsets at %s without telling the placeholder apart: it overflows' % fmt_span(arith[0].get('span')), key='%s|offset' % b.path)
+        if (b.module or '').startswith('truc::generator') and not guarded:
+            t0 = raw[0][1]
+            ctx.add(['C13', 'C11'], 'S-RAW', b.key, 'the generator walks every datum definition at %s, including data withdrawn before their variant was closed, without telling them apart: their type names / sizes end up in the generated module although they are fields of no variant' % fmt_span(t0['span']), key='%s|raw' % b.path)
+    ctx.inst('S-RAW', 'raw datum-collection walks examined: %d' % n)
+    ctx.inst('S-SENTINEL', 'bodies walking the raw datum collection examined: %d' % n)
 
 
 # -- C12: builder state machine ----------------------------------------------
